@@ -1700,7 +1700,8 @@ CoverPairs ==
       fresh == keys \ TLCGet(7)
   IN IF fresh = {} THEN TRUE
      ELSE /\ TLCSet(7, TLCGet(7) \cup fresh)
-          /\ PrintT(<<"SCHED", ToJson([sched |-> sched, prog |-> Prog, fresh |-> Cardinality(fresh)])>>)
+          /\ PrintT(<<"SCHED", ToJson([sched |-> sched, prog |-> Prog, fresh |-> Cardinality(fresh),
+                                           who |-> UNION {{k[1], k[3]} : k \in fresh}])>>)
 
 (* schedule export (simulation with Record = TRUE) *)
 EmitSched == AllDone => PrintT(<<"SCHED", ToJson([sched |-> sched, prog |-> Prog])>>)
